@@ -25,6 +25,8 @@ import (
 //	dot                              : dotted list, last element of C is the tail
 //	vec                              : simple vector of C
 //	tab                              : hash table, C = key value key value ... (keys: distinct fixnums, strings, symbols, characters)
+//	arr                              : 2-dimensional array, V = "RxC", C = the R*C elements in row-major order
+//	inst                             : instance of the harness class named V (c16-k, c16-k2) with one slot holding C[0]
 //	opq                              : V = source expression of an object only its identity is known of
 type Obj struct {
 	K string `json:"k"`
@@ -43,6 +45,14 @@ func dot(c ...Obj) Obj         { return Obj{K: "dot", C: c} }
 func vec(c ...Obj) Obj         { return Obj{K: "vec", C: c} }
 func opq(v string) Obj         { return Obj{K: "opq", V: v} }
 func tab(c ...Obj) Obj         { return Obj{K: "tab", C: c} }
+func arr(dims string, c ...Obj) Obj { return Obj{K: "arr", V: dims, C: c} }
+func inst(class string, v Obj) Obj  { return Obj{K: "inst", V: class, C: []Obj{v}} }
+
+func (o Obj) dims() (int, int) {
+	var r, c int
+	fmt.Sscanf(o.V, "%dx%d", &r, &c)
+	return r, c
+}
 func (o Obj) isNum() bool      { return group(o.K) == "num" }
 func (o Obj) withC(c []Obj) Obj { return Obj{K: o.K, V: o.V, C: c} }
 
@@ -107,6 +117,21 @@ func (o Obj) Src() string {
 		return s
 	case "opq":
 		return o.V
+	case "arr":
+		r, c := o.dims()
+		var b strings.Builder
+		fmt.Fprintf(&b, "(make-array (list %d %d) :initial-contents (list", r, c)
+		for i := 0; i < r; i++ {
+			b.WriteString(" (list")
+			for j := 0; j < c; j++ {
+				b.WriteString(" " + o.C[i*c+j].Src())
+			}
+			b.WriteString(")")
+		}
+		b.WriteString("))")
+		return b.String()
+	case "inst":
+		return "(make-instance (quote " + o.V + ") :v " + o.C[0].Src() + ")"
 	case "tab":
 		var b strings.Builder
 		b.WriteString("(let ((h (make-hash-table)))")
@@ -298,6 +323,34 @@ func matches(obj slip.Object, h *hv) bool {
 	case "tab":
 		t, ok := obj.(slip.HashTable)
 		return ok && 2*len(t) == len(h.kids)
+	case "arr":
+		a, ok := obj.(*slip.Array)
+		if !ok || a.Rank() != 2 {
+			return false
+		}
+		r, c := h.o.dims()
+		rows := a.AsList()
+		if len(rows) != r {
+			return false
+		}
+		for i, row := range rows {
+			rl, ok := row.(slip.List)
+			if !ok || len(rl) != c {
+				return false
+			}
+			for j, e := range rl {
+				if !matches(e, h.kids[i*c+j]) {
+					return false
+				}
+			}
+		}
+		return true
+	case "inst":
+		if obj == nil {
+			return false
+		}
+		hy := obj.Hierarchy()
+		return 0 < len(hy) && strings.EqualFold(string(hy[0]), h.o.V)
 	}
 	return false
 }
@@ -451,6 +504,30 @@ func wantStruct(a, b *hv, p bool) tv {
 			return fU // equalp descends into tables and instances
 		}
 		return fF
+	case "arr":
+		// equal names strings and vectors only; "Arrays: equalp if both have the
+		// same dimensions and each element is equalp".
+		if !p {
+			return fF
+		}
+		if a.o.V != b.o.V || len(a.kids) != len(b.kids) {
+			return fF
+		}
+		r := fT
+		for i := range a.kids {
+			r = and3(r, wantStruct(a.kids[i], b.kids[i], true))
+		}
+		return r
+	case "inst":
+		// "Instances: equalp if both are of the same flavor and all
+		// instance-variables are equalp"; equal if eq.
+		if !p {
+			return fF
+		}
+		if a.o.V != b.o.V {
+			return fF
+		}
+		return wantStruct(a.kids[0], b.kids[0], true)
 	case "tab":
 		// equal: "Others (Hash-Tables, Instances, ...): equal if eq".
 		// equalp: same keys, element values equalp.
